@@ -67,5 +67,25 @@ Fixpoint spec_place (cap pre next : N) (l : list (option N * bool)) : option (li
       end
   end.
 
+Definition next_after (next : N) (ps : list N) : N :=
+  match ps with [] => next | _ => last ps 0 + 1 end.
+
+(* several arrays read one after the other into the same store: pre_length of an array is
+   the next free handle when it starts *)
+Fixpoint spec_doc (cap next : N) (d : list (list (option N * bool))) : option (list N) :=
+  match d with
+  | [] => Some []
+  | l :: d' =>
+      match spec_place cap next next l with
+      | None => None
+      | Some ps => option_map (app ps) (spec_doc cap (next_after next ps) d')
+      end
+  end.
+
 (* the document can justify at most this many slots *)
 Definition justified (pre : N) (n : nat) : N := pre + N.of_nat n.
+
+(* known class: an identifier asks for more slots than the document could fill *)
+Definition Known_C19_alloc (pre : N) (d : list (list (option N * bool))) : bool :=
+  existsb (fun tb => match fst tb with Some h => justified pre (List.length (concat d)) <? h | None => false end)
+          (concat d).
